@@ -176,6 +176,13 @@ func VerifySignature(
 			return errorsmod.Wrap(errortypes.ErrNoSignatures, "tx doesn't contain any msgs to verify signature")
 		}
 
+		// The signed payload below carries the fee amount and gas only (plus the fee payer of the extension option):
+		// a fee granter would be left outside the signature, so anybody could set or change it on an already
+		// signed transaction and have the granter's allowance charged.
+		if granter := tx.FeeGranter(); len(granter) != 0 {
+			return errorsmod.Wrap(errortypes.ErrNotSupported, "fee granter is not supported for EIP-712 signed transactions")
+		}
+
 		txBytes := legacytx.StdSignBytes(
 			signerData.ChainID,
 			signerData.AccountNumber,
